@@ -363,13 +363,17 @@ def taus (v : Variant) (s : State) : List Label :=
 /-! ### observable events -/
 
 inductive Obs
-  | bcall (v : Nat) | bret (t : Nat) | scall | sret (tag : Nat) | cancel (tag : Nat)
+  | bcall (v : Nat) | bacq (v : Nat) | bret (t : Nat) | scall | sret (tag : Nat) | cancel (tag : Nat)
   | recv (tag : Nat) (v : Nat) | ccall | cret
   deriving DecidableEq, Repr
 
 /-- Labels that may produce the observation in state `s`. -/
 def obsLabels (s : State) : Obs → List Label
   | .bcall v => [.bcCall v]
+  | .bacq v => (range s.waitB.length).filterMap (fun k =>
+      match s.waitB[k]? with
+      | some e => if e.val = v then some (.bcAcquire k) else none
+      | none => none)
   | .bret t => [.bcReturn t]
   | .scall => [.subCall]
   | .sret h => [.subReturn h]
